@@ -6,10 +6,11 @@ CONSTANTS
   Lams <- MCLams
   ValsLo <- MCBin
   ValsHi <- MCBin
-  Kinds = {"arch", "param"}
+  Kinds = {"arch", "param", "hp"}
   MaxDec = 2
   MaxDecHi = 2
   MaxOps = 100
+  Hetero = FALSE
 INVARIANT GramDef
 INVARIANT IsInverse
 INVARIANT Symmetric
@@ -19,6 +20,8 @@ INVARIANT DimFollowsLayer
 INVARIANT LowestTerms
 PROPERTY Ownership
 PROPERTY InitScale
+INVARIANT LamPositive
+PROPERTY LamStable
 CONSTRAINT Bound
 VIEW core
 CHECK_DEADLOCK FALSE
